@@ -493,11 +493,19 @@ tb_done:
 			rc = KSI_PublicationsFile_getPKICertificateById(p, id, &crt); KSI_OctetString_free(id);
 			if (rc == KSI_OK && crt) { unsigned char *der = NULL; size_t dl = 0; if (KSI_PKICertificate_serialize(crt, &der, &dl) == KSI_OK) { kx_out(" found=1 dercrc=%lu derlen=%zu", KSI_crc32(der, dl, 0), dl); KSI_free(der); } } else kx_out(" found=0");
 			return rc; }
-		if (strcmp(tok[4], "-")) KSI_Integer_new(c, strtoull(tok[4], NULL, 0), &t);
+		if (strcmp(tok[4], "-") && strcmp(tok[3], "byrecord") && strcmp(tok[3], "bystring")) KSI_Integer_new(c, strtoull(tok[4], NULL, 0), &t);
 		if (!strcmp(tok[3], "bytime")) rc = KSI_PublicationsFile_getPublicationDataByTime(p, t, &pr);
 		else if (!strcmp(tok[3], "nearest")) { rc = KSI_PublicationsFile_getNearestPublication(p, t, &pr); owned = 1; }
 		else if (!strcmp(tok[3], "latest")) rc = KSI_PublicationsFile_getLatestPublication(p, t, &pr);
 		else if (!strcmp(tok[3], "bystring")) rc = KSI_PublicationsFile_getPublicationDataByPublicationString(p, tok[4], &pr);
+		else if (!strcmp(tok[3], "findbytime")) { rc = KSI_PublicationsFile_findPublicationByTime(p, t, &pr); owned = 1; }
+		else if (!strcmp(tok[3], "byrecord")) { /* byrecord <publication string>: KSI_PublicationsFile_findPublication with a free-standing record of that time and hash */
+			KSI_PublicationData *pd = NULL; KSI_PublicationRecord *in = NULL; KSI_Integer_free(t); t = NULL;
+			rc = KSI_PublicationData_fromBase32(c, tok[4], &pd); if (rc) return rc;
+			rc = KSI_PublicationRecord_new(c, &in); if (rc) { KSI_PublicationData_free(pd); return rc; }
+			KSI_PublicationRecord_setPublishedData(in, pd);
+			rc = KSI_PublicationsFile_findPublication(p, in, &pr); owned = 1;
+			KSI_PublicationRecord_free(in); }
 		KSI_Integer_free(t);
 		if (rc == KSI_OK && pr) { KSI_PublicationData *pd = NULL; KSI_Integer *pt = NULL; KSI_DataHash *ph = NULL; const unsigned char *imp; size_t il;
 			KSI_PublicationRecord_getPublishedData(pr, &pd); KSI_PublicationData_getTime(pd, &pt); KSI_PublicationData_getImprint(pd, &ph); KSI_DataHash_getImprint(ph, &imp, &il);
